@@ -50,10 +50,24 @@ def run(ctx):
                 if sigs[v[0]] <= 2:
                     viol.append({'signature': v[0], 'case': {'spec': c['spec'], 'jobs': c['jobs'], 'schedule': r['schedule']},
                                  'what': f'C11: pipeline {ci}, schedule {r["schedule"]}: {v[1]}', 'observed': r['results'], 'expected': c['ref']})
-    return {'evaluations': n, 'distinct_nontrivial': len(distinct),
+    races = 0
+    for ci, c in enumerate(cases):
+        cr = c.get('compile_race')
+        if not cr:
+            continue
+        races += cr['points']
+        for b in cr['bad'][:1]:
+            sigs['oracle:first-calls-race'] = sigs.get('oracle:first-calls-race', 0) + 1
+            if sigs['oracle:first-calls-race'] <= 2:
+                viol.append({'signature': 'oracle:first-calls-race', 'case': {'spec': c['spec'], 'jobs': cr['jobs'], 'pause_after_line': b['pause_after_line']},
+                             'observed': b['results'],
+                             'what': f'C11: pipeline {ci}: two threads make their first calls {cr["jobs"]} on a pipeline object nobody has used yet; with thread 0 '
+                                     f'paused after its {b["pause_after_line"]}th executed line of connectome code while thread 1 runs, the results are {json.dumps(b["results"])[:300]}'})
+    return {'evaluations': n + races, 'distinct_nontrivial': len(distinct),
             'rule': 'random cached pipelines (RAM caches, often of size 1, and disk caches) called from 2 threads under every schedule of the given '
                     'length (thread switches only at user-function entry and at cache get/set entry; then the threads finish one after another), '
-                    'a few with 3 threads under 150 sampled schedules, 30% with a concurrent _clear(); distinct by (pipeline, schedule)',
+                    'a few with 3 threads under 150 sampled schedules, 30% with a concurrent _clear(), 30% with column caches; every third pipeline also with the first '
+                    'calls of two threads raced at line granularity (thread 0 paused after its N-th line of connectome code); distinct by (pipeline, schedule)',
             'samples': [{'spec': cases[0]['spec'], 'jobs': cases[0]['jobs'], 'schedules': [r['schedule'] for r in cases[0]['runs'][:5]]}],
             'distribution': {'pipelines': len(cases), 'schedules': n, 'exhaustive_two_thread_schedules_of_length': 8 if quick else 10},
             'violations': viol, 'oracle_checks': n, 'mismatches': 0, 'exhaustive': False}
